@@ -312,6 +312,15 @@ class Checker(object):
         # that the assignment stays meaningful
         def fails(x):
             return self.judge_once(x, A, drop)[0] == kind
+        if kind == 'value' and any(
+                x[0] == 'arrayval' and x[1][0] == 'Array'
+                for x in B.subterms(b)):
+            # one mechanism (recorded, see C01): literals indexed by array
+            # literals are looked up by object identity
+            rep.violation(
+                'C02/get_value/value/array-literal-indexed-by-arrays',
+                '%s: %s' % (kind, info), {'bp': B.to_json(b), 'kind': kind})
+            return
         key, m = self.sb.classify(PROP, 'get_value', kind, b, fails)
         what = info
         if m is not None and m is not b:
